@@ -4,8 +4,9 @@
    - one value per response key (no duplicate keys), every key is the
      response name of a field selected (directly, through inline fragments or
      through spread fragments) in one of the selection sets that apply;
-   - every field selected directly and unconditionally (no directive, not
-     under a type condition) is present;
+   - every field selected unconditionally (no directive on it or on the
+     fragments it is reached through, every type condition on the way always
+     applies to the parent type) is present;
    - lists exactly where list types are declared, objects exactly where the
      field type is composite, leaf values of the declared scalar kind / enum.
    Nullability is NOT part of the check: the statement of C05 does not name
@@ -16,6 +17,14 @@
 From PyGql Require Export Valid.ValidOverlap Base.Pv.
 
 Definition scand := (str * bool * option sfield * list selection)%type.
+
+(* a fragment with this type condition applies to every object the selection
+   set is evaluated for *)
+Definition applies_always (s : schema) (parent tc : option str) : bool :=
+  match parent, tc with
+  | Some p, Some t => str_eqb p t || (is_object s p && is_possible_type s t p)
+  | _, _ => false
+  end.
 
 Fixpoint collect_static (fuel : nat) (s : schema) (frs : list (str * (ty * list selection)))
          (parent : option str) (direct : bool) (sels : list selection) : list scand :=
@@ -28,15 +37,18 @@ Fixpoint collect_static (fuel : nat) (s : schema) (frs : list (str * (ty * list 
             [(response_name alias n,
               direct && match dirs with [] => true | _ => false end,
               field_def_of s parent (n_val n), sub)]
-        | SSpread n _ _ =>
+        | SSpread n dirs _ =>
             match alookup (n_val n) frs with
-            | Some (tc, fsels) => collect_static f s frs (ov_type_name s tc) false fsels
+            | Some (tc, fsels) =>
+                collect_static f s frs (ov_type_name s tc)
+                  (direct && match dirs with [] => true | _ => false end
+                          && applies_always s parent (ov_type_name s tc)) fsels
             | None => []
             end
         | SInline tc dirs _ sub _ =>
             collect_static f s frs
               (match tc with Some t => ov_type_name s t | None => parent end)
-              (direct && match tc with None => true | Some _ => false end
+              (direct && match tc with None => true | Some t => applies_always s parent (ov_type_name s t) end
                       && match dirs with [] => true | _ => false end) sub
         end) sels
   end.
